@@ -273,7 +273,9 @@ class extract_visitor(NodeVisitor):
 
     def visit_Return(self, node):
         # type: (ast.Return) -> None
-        self.flow.scope.returns.append(node.value)  # type: ignore[attr-defined]
+        returns = getattr(self.flow.scope, 'returns', None)
+        if returns is not None:  # a misplaced return, outside any function
+            returns.append(node.value)
         self.generic_visit(node)
 
     def visit_ListComp(self, node):
